@@ -13,33 +13,47 @@ Local Notation "a *f b" := (fmul Op a b) (at level 40, left associativity).
 Local Notation "a +f b" := (fadd Op a b) (at level 50, left associativity).
 Local Notation Sum := (sumn Op).
 
-(* a well-formed chain: order-3 cores with matching bond dimensions *)
+(* a well-formed chain: cores of order >= 2 with matching bond dimensions *)
 Fixpoint chain_ok (r : nat) (cores : list (tensor F)) : Prop :=
   match cores with
   | [] => True
-  | G :: gs => is3 G = true /\ core_r1 G = r /\ chain_ok (core_r2 G) gs
+  | G :: gs => iscore G = true /\ core_r1 G = r /\ chain_ok (core_r2 G) gs
   end.
 Definition last_r2 (r : nat) (cores : list (tensor F)) : nat := fold_left (fun (_ : nat) (G : tensor F) => core_r2 G) cores r.
+(* one multi-index per core, inside the middle modes of that core *)
+Fixpoint mids_ok (cores : list (tensor F)) (idx : list (list nat)) : Prop :=
+  match cores, idx with
+  | [], [] => True
+  | G :: gs, js :: rest => inb (core_mid G) js /\ mids_ok gs rest
+  | _, _ => False
+  end.
 
-Lemma is3_shape (G : tensor F) : is3 G = true -> shape G = [core_r1 G; core_n G; core_r2 G].
+Lemma iscore_shape (G : tensor F) : iscore G = true -> shape G = core_r1 G :: core_mid G ++ [core_r2 G].
 Proof.
-  unfold is3, core_r1, core_n, core_r2. intros H. apply andb_true_iff in H. destruct H as [H _]. apply Nat.eqb_eq in H.
-  destruct (shape G) as [|a [|b [|c [|]]]]; simpl in *; try discriminate. reflexivity.
+  unfold iscore, core_r1, core_mid, core_r2. intros H. apply andb_true_iff in H. destruct H as [H _]. apply Nat.leb_le in H.
+  destruct (shape G) as [|a l]; [simpl in H; lia|]. destruct l as [|b l]; [simpl in H; lia|].
+  cbn [hd tl]. f_equal. change (last (a :: b :: l) 0) with (last (b :: l) 0).
+  apply app_removelast_last. discriminate.
 Qed.
+Lemma last_cons_app {A} (a : A) l c d : last (a :: l ++ [c]) d = c.
+Proof. change (a :: l ++ [c]) with ((a :: l) ++ [c]). apply last_last. Qed.
 
-Lemma tget_pad_core l r G a j c : is3 G = true -> a < core_r1 G + l -> j < core_n G -> c < core_r2 G + r ->
-  tget Op (pad_core Op l r G) [a; j; c] = if (a <? core_r1 G) && (c <? core_r2 G) then tget Op G [a; j; c] else fz.
+Lemma tget_pad_core l r G a js c : iscore G = true -> a < core_r1 G + l -> inb (core_mid G) js -> c < core_r2 G + r ->
+  tget Op (pad_core Op l r G) (a :: js ++ [c]) =
+  if (a <? core_r1 G) && (c <? core_r2 G) then tget Op G (a :: js ++ [c]) else fz.
 Proof.
-  intros H Ha Hj Hc. unfold tget at 1, pad_core. rewrite get_tabulate; [reflexivity|]. simpl. tauto.
+  intros H Ha Hj Hc. unfold tget at 1, pad_core. rewrite get_tabulate.
+  - cbn [hd]. now rewrite last_cons_app.
+  - cbn [inb]. split; [exact Ha|]. apply inb_app; [exact Hj|]. simpl. auto.
 Qed.
-Lemma pad_core_shape l r G : shape (pad_core Op l r G) = [core_r1 G + l; core_n G; core_r2 G + r].
+Lemma pad_core_shape l r G : shape (pad_core Op l r G) = core_r1 G + l :: core_mid G ++ [core_r2 G + r].
 Proof. reflexivity. Qed.
 Lemma pad_core_r2 l r G : core_r2 (pad_core Op l r G) = core_r2 G + r.
-Proof. reflexivity. Qed.
+Proof. unfold core_r2 at 1. rewrite pad_core_shape. apply last_cons_app. Qed.
 Lemma pad_core_r1 l r G : core_r1 (pad_core Op l r G) = core_r1 G + l.
 Proof. reflexivity. Qed.
-Lemma pad_core_n l r G : core_n (pad_core Op l r G) = core_n G.
-Proof. reflexivity. Qed.
+Lemma pad_core_mid l r G : core_mid (pad_core Op l r G) = core_mid G.
+Proof. unfold core_mid at 1. rewrite pad_core_shape. cbn [tl]. apply removelast_last. Qed.
 
 (* cores padded by arbitrary amounts (lp_k, rp_k) *)
 Definition pad_with (pads : list (nat * nat)) (cores : list (tensor F)) : list (tensor F) :=
@@ -59,14 +73,14 @@ Qed.
 
 (* the padded chain is the original one inside the old bond ranges and zero outside *)
 Lemma tt_chain_pad : forall cores pads idx r a b,
-  cores <> [] -> chain_ok r cores -> length pads = length cores -> inb (tt_shape cores) idx ->
+  cores <> [] -> chain_ok r cores -> length pads = length cores -> mids_ok cores idx ->
   a < r + fst (hd (0, 0) pads) -> b < last_r2 r cores + snd (last pads (0, 0)) ->
   tt_chain Op (pad_with pads cores) idx a b =
   if (a <? r) && (b <? last_r2 r cores) then tt_chain Op cores idx a b else fz.
 Proof.
   induction cores as [|G gs IH]; intros pads idx r a b Hne Hok Hlen Hin Ha Hb; [contradiction|].
   destruct pads as [|[lp rp] pads]; [discriminate|]. injection Hlen as Hlen.
-  destruct idx as [|j js]; [contradiction|]. cbn [tt_shape map inb] in Hin. destruct Hin as [Hj Hin].
+  destruct idx as [|j js]; [contradiction|]. cbn [mids_ok] in Hin. destruct Hin as [Hj Hin].
   cbn [chain_ok] in Hok. destruct Hok as (H3 & Hr1 & Hok). cbn [hd fst] in Ha.
   unfold pad_with. cbn [combine map fst snd tt_chain]. fold (pad_with pads gs).
   rewrite pad_core_r2. cbn [last_r2 fold_left] in *. fold (last_r2 (core_r2 G) gs) in *.
@@ -84,7 +98,7 @@ Proof.
     2:{ intros i Hi. rewrite tget_pad_core by (auto; lia).
         replace (core_r2 G + i <? core_r2 G) with false by (symmetry; apply Nat.ltb_ge; lia).
         rewrite andb_false_r. ring. }
-    rewrite (sumn_ext Op _ _ (fun c => (if a <? r then tget Op G [a; j; c] else fz) *f
+    rewrite (sumn_ext Op _ _ (fun c => (if a <? r then tget Op G (a :: j ++ [c]) else fz) *f
                   (if b <? last_r2 (core_r2 G) (G2 :: gs2) then tt_chain Op (G2 :: gs2) js c b else fz))).
     2:{ intros c Hc. rewrite tget_pad_core by (auto; lia). rewrite Hr1.
         replace (c <? core_r2 G) with true by (symmetry; apply Nat.ltb_lt; lia). rewrite andb_true_r.
@@ -115,11 +129,11 @@ Proof.
     rewrite IHlen by lia. f_equal. lia.
 Qed.
 Lemma pad_tt_chain cores npad pb cores' idx r a b :
-  pad_tt_rank Op cores npad pb = Ok cores' -> cores <> [] -> chain_ok r cores -> inb (tt_shape cores) idx ->
+  pad_tt_rank Op cores npad pb = Ok cores' -> cores <> [] -> chain_ok r cores -> mids_ok cores idx ->
   a < r + (if pb then npad else 0) -> b < last_r2 r cores + (if pb then npad else 0) ->
   tt_chain Op cores' idx a b = if (a <? r) && (b <? last_r2 r cores) then tt_chain Op cores idx a b else fz.
 Proof.
-  unfold pad_tt_rank. destruct (forallb is3 cores); [|discriminate]. intros E Hne Hok Hin Ha Hb. injection E as <-.
+  unfold pad_tt_rank. destruct (forallb iscore cores); [|discriminate]. intros E Hne Hok Hin Ha Hb. injection E as <-.
   rewrite pad_from_with. apply tt_chain_pad; auto.
   - now rewrite map_length, seq_length.
   - destruct cores as [|G gs]; [contradiction|]. cbn [length seq map hd fst]. unfold lpad. cbn. destruct pb; cbn; lia.
@@ -127,25 +141,25 @@ Proof.
     replace (0 + length cores - 1) with (length cores - 1) by lia. rewrite Nat.eqb_refl. destruct pb; cbn; lia.
 Qed.
 
-(* pad_tt_rank leaves every entry of the represented tensor unchanged: tensor train (boundary ranks r >= 1) ... *)
-Theorem pad_tt_entry cores npad pb cores' idx r :
-  pad_tt_rank Op cores npad pb = Ok cores' -> cores <> [] -> chain_ok r cores -> inb (tt_shape cores) idx ->
+(* cores of any order (tensor train, TT-matrix, ...): entry (0,0) of the chain product, and its trace, are unchanged *)
+Theorem pad_chain_entry cores npad pb cores' idx r :
+  pad_tt_rank Op cores npad pb = Ok cores' -> cores <> [] -> chain_ok r cores -> mids_ok cores idx ->
   0 < r -> 0 < last_r2 r cores ->
-  tt_entry Op cores' idx = tt_entry Op cores idx.
+  tt_chain Op cores' idx 0 0 = tt_chain Op cores idx 0 0.
 Proof.
-  intros E Hne Hok Hin Hr Hl. unfold tt_entry. rewrite (pad_tt_chain _ _ _ _ _ r 0 0 E) by (auto; lia).
+  intros E Hne Hok Hin Hr Hl. rewrite (pad_tt_chain _ _ _ _ _ r 0 0 E) by (auto; lia).
   replace (0 <? r) with true by (symmetry; apply Nat.ltb_lt; lia).
   replace (0 <? last_r2 r cores) with true by (symmetry; apply Nat.ltb_lt; lia). reflexivity.
 Qed.
-(* ... and tensor ring (trace over the boundary bond) *)
-Theorem pad_tr_entry cores npad pb cores' idx r :
-  pad_tt_rank Op cores npad pb = Ok cores' -> cores <> [] -> chain_ok r cores -> inb (tt_shape cores) idx ->
+Theorem pad_chain_trace cores npad pb cores' idx r :
+  pad_tt_rank Op cores npad pb = Ok cores' -> cores <> [] -> chain_ok r cores -> mids_ok cores idx ->
   last_r2 r cores = r ->
-  tr_entry Op cores' idx = tr_entry Op cores idx.
+  Sum (core_r1 (hd (mk [] []) cores')) (fun a => tt_chain Op cores' idx a a) =
+  Sum (core_r1 (hd (mk [] []) cores)) (fun a => tt_chain Op cores idx a a).
 Proof.
-  intros E Hne Hok Hin Hl. unfold tr_entry.
+  intros E Hne Hok Hin Hl.
   assert (R1 : core_r1 (hd (mk [] []) cores') = r + (if pb then npad else 0)).
-  { unfold pad_tt_rank in E. destruct (forallb is3 cores); [|discriminate]. injection E as <-.
+  { unfold pad_tt_rank in E. destruct (forallb iscore cores); [|discriminate]. injection E as <-.
     destruct cores as [|G gs]; [contradiction|]. cbn [pad_from hd]. rewrite pad_core_r1. destruct Hok as (_ & Hr1 & _).
     rewrite Hr1. destruct pb; cbn; lia. }
   assert (R0 : core_r1 (hd (mk [] []) cores) = r).
@@ -159,7 +173,29 @@ Proof.
   replace (a <? r) with true by (symmetry; apply Nat.ltb_lt; lia). reflexivity.
 Qed.
 
-(* the advertised ranks: core k of n gets [r1 + lpad k; n_k; r2 + rpad k] and keeps the old entries *)
+(* order-3 cores: the dense tensor of a tensor train / ring, one index per core *)
+Definition order3 (cores : list (tensor F)) : Prop := Forall (fun G => length (shape G) = 3) cores.
+Lemma single_mids_ok : forall cores idx, order3 cores -> inb (tt_shape cores) idx -> mids_ok cores (single idx).
+Proof.
+  induction cores as [|G gs IH]; intros [|j js] H3 Hin; cbn [tt_shape map inb single mids_ok] in *; try contradiction; auto.
+  inversion H3 as [|? ? HG Hgs]; subst. destruct Hin as [Hj Hin]. split; [|apply IH; auto].
+  unfold core_mid. unfold core_n in Hj. destruct (shape G) as [|a [|n [|c [|]]]]; simpl in HG; try discriminate.
+  simpl in *. auto.
+Qed.
+(* pad_tt_rank leaves every entry of the represented tensor unchanged: tensor train (boundary ranks r >= 1) ... *)
+Theorem pad_tt_entry cores npad pb cores' idx r :
+  pad_tt_rank Op cores npad pb = Ok cores' -> cores <> [] -> chain_ok r cores -> order3 cores -> inb (tt_shape cores) idx ->
+  0 < r -> 0 < last_r2 r cores ->
+  tt_entry Op cores' idx = tt_entry Op cores idx.
+Proof. intros E Hne Hok H3 Hin Hr Hl. unfold tt_entry. eapply pad_chain_entry; eauto. now apply single_mids_ok. Qed.
+(* ... and tensor ring (trace over the boundary bond) *)
+Theorem pad_tr_entry cores npad pb cores' idx r :
+  pad_tt_rank Op cores npad pb = Ok cores' -> cores <> [] -> chain_ok r cores -> order3 cores -> inb (tt_shape cores) idx ->
+  last_r2 r cores = r ->
+  tr_entry Op cores' idx = tr_entry Op cores idx.
+Proof. intros E Hne Hok H3 Hin Hl. unfold tr_entry. eapply pad_chain_trace; eauto. now apply single_mids_ok. Qed.
+
+(* the advertised ranks: core k of n gets r1 + lpad k :: mid_k ++ [r2 + rpad k] *)
 Lemma nth_pad_with d : forall pads cores k, length pads = length cores -> k < length cores ->
   nth k (pad_with pads cores) d = pad_core Op (fst (nth k pads (0, 0))) (snd (nth k pads (0, 0))) (nth k cores d).
 Proof.
@@ -169,10 +205,10 @@ Qed.
 Theorem pad_tt_rank_shapes cores npad pb cores' k d :
   pad_tt_rank Op cores npad pb = Ok cores' -> k < length cores ->
   length cores' = length cores /\
-  shape (nth k cores' d) = [core_r1 (nth k cores d) + lpad (length cores) npad pb k; core_n (nth k cores d);
-                            core_r2 (nth k cores d) + rpad (length cores) npad pb k].
+  shape (nth k cores' d) = core_r1 (nth k cores d) + lpad (length cores) npad pb k :: core_mid (nth k cores d) ++
+                           [core_r2 (nth k cores d) + rpad (length cores) npad pb k].
 Proof.
-  unfold pad_tt_rank. destruct (forallb is3 cores); [|discriminate]. intros E Hk. injection E as <-.
+  unfold pad_tt_rank. destruct (forallb iscore cores); [|discriminate]. intros E Hk. injection E as <-.
   rewrite pad_from_with. split.
   - unfold pad_with. rewrite map_length, combine_length, map_length, seq_length. lia.
   - rewrite nth_pad_with by (rewrite ?map_length, ?seq_length; lia).
@@ -181,5 +217,5 @@ Qed.
 (* the single core of an order-1 train is first and last: unchanged boundary ranks *)
 Corollary pad_tt_rank_order1 G npad cores' :
   pad_tt_rank Op [G] npad false = Ok cores' -> cores' = [pad_core Op 0 0 G].
-Proof. unfold pad_tt_rank. destruct (forallb is3 [G]); [|discriminate]. intros E. injection E as <-. reflexivity. Qed.
+Proof. unfold pad_tt_rank. destruct (forallb iscore [G]); [|discriminate]. intros E. injection E as <-. reflexivity. Qed.
 End P.
